@@ -771,6 +771,7 @@ def judge(m, workers):
             for file, old, new in m["edits"]:
                 repl(os.path.join(dst, file), old, new)
         env = dict(os.environ, BITS_SRC=dst, VERIF_EVIDENCE_DIR=os.path.join(root, "evidence"), VERIF_REPLAY_DIR=os.path.join(root, "replays"), VERIF_WORKERS=str(workers))
+        env.update(m.get("env") or {})
         cmd = [os.path.join(ROOT, "check"), m["prop"], "--tier", "quick"]
         if m.get("runs"):
             cmd += ["--runs", str(m["runs"])]
@@ -809,7 +810,7 @@ def seeded():
                 if md.get("superseded"):
                     continue  # the code it patched was rewritten by a later fix: commit; result on record in meta.json
                 exp = (md.get("check_result") or {}).get("verdict")
-                out.append({"id": "seeded/" + name, "prop": md["property"], "patch": patch, "runs": md.get("runs"), "not_decided": exp == "NOT-DECIDED"})
+                out.append({"id": "seeded/" + name, "prop": md["property"], "patch": patch, "runs": md.get("runs"), "not_decided": exp == "NOT-DECIDED", "env": md.get("check_env")})
     return out
 
 
